@@ -30,6 +30,8 @@ def make_api(ctx, count):
                 ops.append(("KR", n, step))
             elif r < 0.36:
                 ms = rng.choice(ADV_DENSE) if rng.random() < 0.85 else rng.randint(0, 120000)
+                if rng.random() < 0.03:
+                    ms = rng.choice([65536000, 4294967000, 4294968000, 4295027000, (1 << 32) + 30000, 1 << 33, 1 << 41])      # very long without a tick
                 s.add("ADV %d" % ms)
                 ops.append(("ADV", ms))
             elif r < 0.50:
@@ -116,7 +118,7 @@ def make_flow(ctx, count):
                     s.add("KR 0 %d 100" % n)
                     ops.append(("KR", n, 100))
             elif r < 0.5:
-                ms = rng.choice([1000, 5000, 29000, 30000, 31000, 59000, 60000, 61000, 120000])
+                ms = rng.choice([1000, 5000, 29000, 30000, 31000, 59000, 60000, 61000, 120000, 120000, 4294968000, (1 << 32) + 30000, 1 << 41])
                 s.add("ADV %d" % ms)
                 ops.append(("ADV", ms))
             else:
